@@ -1709,6 +1709,8 @@ end EquivC13
 -- NO-HYPOTHESES: PysparklingVerif.Extracted.C06.takeHandler_is_takeChain
 -- NO-HYPOTHESES: PysparklingVerif.Extracted.C06.firstHandler_is_takeChain
 -- NO-HYPOTHESES: PysparklingVerif.Extracted.C06.isEmpty_calls
+-- NO-HYPOTHESES: PysparklingVerif.Extracted.C06.sampleStage_pulls_everything
+-- NO-HYPOTHESES: PysparklingVerif.Extracted.C06.sampleStage_nothing_drawn
 -- NONVACUOUS: PysparklingVerif.Extracted.C06.take_text_end_to_end
 -- (the hypothesis `j < ops.length` with a two-stage pipeline over two partitions; the `example` next to the theorem in
 -- Extracted/EquivC06.lean evaluates the same instance by `decide`)
